@@ -174,6 +174,8 @@ func c16sInterp(t *testing.T, c c16sCase) (v kit.Verdict) {
 						m.Add(Task{Duration: time.Duration(e.Us) * time.Microsecond, Description: strconv.Itoa(i)})
 					case "drop":
 						m.AddDrop()
+					case "dropd": // a drop handed over through Add, with a duration that must not be counted
+						m.Add(Task{Drop: true, Duration: time.Duration(e.Us) * time.Microsecond, Description: strconv.Itoa(i)})
 					case "flush":
 						m.executor.Flush()
 					}
@@ -204,8 +206,11 @@ func c16sInterp(t *testing.T, c c16sCase) (v kit.Verdict) {
 					if e.Us > maxUs {
 						maxUs = e.Us
 					}
-				case "drop":
+				case "drop", "dropd":
 					drops++
+					if e.K == "dropd" {
+						cl["drop-with-duration"] = true
+					}
 				}
 			}
 			gotAdds, gotDrops, nonEmpty := 0, 0, 0
@@ -338,7 +343,7 @@ func c16sGen(rt *rapid.T) c16sCase {
 	n := rapid.IntRange(1, 40).Draw(rt, "nev")
 	for i := 0; i < n; i++ {
 		e := c16sEv{G: rapid.IntRange(0, ng-1).Draw(rt, "g")}
-		e.K = rapid.SampledFrom([]string{"add", "add", "add", "add", "drop", "drop", "flush"}).Draw(rt, "k")
+		e.K = rapid.SampledFrom([]string{"add", "add", "add", "add", "drop", "drop", "dropd", "flush"}).Draw(rt, "k")
 		switch rapid.IntRange(0, 9).Draw(rt, "gapclass") {
 		case 0, 1, 2, 3, 4:
 		case 5, 6:
@@ -348,8 +353,12 @@ func c16sGen(rt *rapid.T) c16sCase {
 		default:
 			e.Gap = rapid.IntRange(5, 14).Draw(rt, "gap") // several periods
 		}
-		if e.K == "add" {
-			e.Us = rapid.IntRange(0, 5_000_000).Draw(rt, "us")
+		if e.K == "add" || e.K == "dropd" {
+			if rapid.IntRange(0, 9).Draw(rt, "durmag") == 0 { // 1 us, 1 ms, 1 s, 1 min, 1 h, 30 days
+				e.Us = rapid.SampledFrom([]int{1, 1000, 1_000_000, 60_000_000, 3_600_000_000, 2_592_000_000_000}).Draw(rt, "usmag")
+			} else {
+				e.Us = rapid.IntRange(0, 5_000_000).Draw(rt, "us")
+			}
 		}
 		e.Y = rapid.SampledFrom([]int{0, 0, 0, 1, 2}).Draw(rt, "y")
 		c.Ev = append(c.Ev, e)
